@@ -183,6 +183,11 @@ func (c *Crew) SetMachine(ctx context.Context, mid string, src *crew.SpecSource,
 		// might replace a machine deleted since the last report:
 		// that deletion is superseded.
 		ch := c.change(mid)
+		if ch.Deleted && src == nil {
+			// The machine that was deleted might have had
+			// a spec; its replacement has none (yet).
+			ch.SpecSrc = &crew.SpecSource{}
+		}
 		ch.Deleted = false
 		ch.State = m.State
 	} else if state != nil {
